@@ -24,12 +24,14 @@ LBmp gen_lbmp(Tape& t) {
 	LBmp b; b.depth = t.pick<unsigned>({1, 4, 8});
 	b.width = int32_t(t.below(71)); if (t.below(12) == 0) b.width = t.pick<int32_t>({100, 255, 256, 257, 1000, 4097});
 	b.height = int32_t(t.below(81)) - 40; if (t.below(10) == 0) b.height = t.pick<int32_t>({0, 1, -1, 2, -2, 300, -300});
+	if (t.below(24) == 0) { b.width = t.pick<int32_t>({65535, 65536, 65537, 65569, 131073}) + int32_t(t.below(3)) * 8; b.height = t.pick<int32_t>({1, -1, 2, -3}); }   // rows wider than any 16-bit quantity
 	unsigned maxc = 1u << b.depth;
 	b.usedColors = t.below(3) == 0 ? 1 + uint32_t(t.below(maxc)) : 0;
 	size_t entries = b.usedColors ? b.usedColors : maxc;
 	for (size_t i = 0; i < entries; ++i) b.palette.push_back({t.u8(), uint8_t(i * 7 + 1), uint8_t(255 - i), t.u8()});
 	b.pixels = t.expand(size_t(refgfx::pitch(uint64_t(b.width), b.depth) * absh(b.height)));
-	b.imageSize = t.below(3) == 0 ? t.u32() : 0; if (t.below(3) == 0) b.imageSize = uint32_t(b.pixels.size());   // the size most encoders state: exactly the pixel bytes b.xRes = t.below(3) == 0 ? t.u32() : 2835; b.yRes = t.below(3) == 0 ? t.u32() : 0;
+	b.imageSize = t.below(3) == 0 ? t.u32() : 0; if (t.below(3) == 0) b.imageSize = uint32_t(b.pixels.size());   // the size most encoders state: exactly the pixel bytes
+	b.xRes = t.below(3) == 0 ? t.u32() : 2835; b.yRes = t.below(3) == 0 ? t.u32() : 0;
 	b.importantColors = t.below(3) == 0 ? uint32_t(t.below(maxc + 1)) : 0;
 	b.shift = t.below(5) == 0 ? uint32_t(t.below(100)) : 0;
 	b.reserved1 = t.below(8) == 0 ? t.u16() : 0;
@@ -145,6 +147,7 @@ void run_case(Tape& t, Stats& st) {
 	if (t.below(3) == 0) {
 		unsigned depth = t.pick<unsigned>({1, 4, 8}); uint32_t w = uint32_t(t.below(71)); if (t.below(12) == 0) w = t.pick<uint32_t>({255, 256, 1000, 4096});
 		int32_t h = int32_t(t.below(81)) - 40; unsigned mode = unsigned(t.below(4));
+		if (t.below(24) == 0) { w = t.pick<uint32_t>({65535, 65536, 65537, 65569, 131073}) + uint32_t(t.below(3)) * 8; h = t.pick<int32_t>({1, -1, 2, -3}); }
 		if (st.want_sample()) st.sample("{\"factory\":{\"depth\":" + std::to_string(depth) + ",\"width\":" + std::to_string(w) + ",\"height\":" + std::to_string(h) + ",\"mode\":" + std::to_string(mode) + "}}");
 		factory_case(depth, w, h, mode, t, st);
 		return;
@@ -175,6 +178,15 @@ void run_sweep(Stats& st) {
 			file_case(L, st);
 		}
 		for (unsigned mode = 0; mode < 3; ++mode) { Tape t(tp); factory_case(depth, uint32_t(width), height, mode, t, st); }
+	}
+	// rows wider than any 16-bit quantity (a width, a pitch or a row bit count squeezed through 16 bits would alias a narrow picture)
+	for (unsigned depth : {1u, 4u, 8u}) for (uint32_t width : {65535u, 65536u, 65537u, 65569u, 131072u, 131073u, (1u << 20) + 1}) for (int32_t height : {1, -2, 3}) {
+		if (depth != 1 && width > 200000) continue;
+		if (!sw("wide", depth, width, uint64_t(height + 8))) continue;
+		LBmp L; L.depth = depth; L.width = int32_t(width); L.height = height; for (size_t i = 0; i < (size_t(1) << depth); ++i) L.palette.push_back({uint8_t(i), uint8_t(i * 2), uint8_t(i * 3), uint8_t(255 - i)});
+		L.pixels.resize(size_t(refgfx::pitch(uint64_t(width), depth) * absh(height))); for (size_t i = 0; i < L.pixels.size(); ++i) L.pixels[i] = uint8_t(0x3C ^ (i * 29) ^ (i >> 9));
+		file_case(L, st);
+		for (unsigned mode : {0u, 2u}) { Tape t(tp); factory_case(depth, width, height, mode, t, st); }
 	}
 	// factory dimensions at the edge of the width type: 2^31-1 columns with no rows is a legal (empty) bitmap; widths that are negative as int32 are refused
 	for (unsigned depth : {1u, 4u, 8u}) {
